@@ -28,7 +28,7 @@ pub trait Cigar {
             let op = result?;
 
             if op.kind().consumes_reference() {
-                span += op.len();
+                span = checked_add(span, op.len())?;
             }
         }
 
@@ -43,12 +43,17 @@ pub trait Cigar {
             let op = result?;
 
             if op.kind().consumes_read() {
-                length += op.len();
+                length = checked_add(length, op.len())?;
             }
         }
 
         Ok(length)
     }
+}
+
+fn checked_add(a: usize, b: usize) -> io::Result<usize> {
+    a.checked_add(b)
+        .ok_or_else(|| io::Error::new(io::ErrorKind::InvalidData, "CIGAR length overflow"))
 }
 
 impl<'a> IntoIterator for &'a dyn Cigar {
